@@ -240,3 +240,25 @@ def model_profiles(scheme, cfg, tier_, extra_inv=True):
         v = tla_value(raw)
         out.append({"p": v[1], "valid": v[2], "outcome": v[3], "pis": v[4]})
     return out, r, c
+
+
+def model_boundaries(scheme, cfg, maxn=600):
+    """Run MC_Boundaries for (scheme, cfg): -> list of profiles on either side of every layout threshold up to maxn."""
+    from common import run_tlc, parse_printed, tla_value
+    probe_db = {b"k": [b"\x01" * sc.id_size_of(cfg)]}
+    c = numbers(scheme, fit(scheme, cfg, [1], probe_db))
+    wrapper = ("---- MODULE MCB ----\nEXTENDS MC_Boundaries\nCfgDef == %s\n====\n" % tla_literal(c))
+    cfgtxt = ('CONSTANTS Scheme = "%s"\nCfg <- CfgDef\nMaxN = %d\nSPECIFICATION Spec\nINVARIANT Emit\nCHECK_DEADLOCK FALSE\n' % (scheme, maxn))
+    r = run_tlc("MCB", cfgtxt, workers=8, extra_modules={"MCB": wrapper}, name="bound", heap="2g")
+    out = []
+    for raw in parse_printed(r.out, "H"):
+        v = tla_value(raw)
+        if v[3]:
+            out.append(list(v[1]))
+        if v[4]:                 # the far side of a validity threshold is not a valid database: not replayed
+            out.append(list(v[2]))
+    uniq = []
+    for p in out:
+        if p not in uniq:
+            uniq.append(p)
+    return uniq, r
